@@ -48,7 +48,7 @@ prop("C01", ["TaRs.Props.C01"],
      explanation="L2 theorems (X K, any linearly ordered field): the generated next of SMA/WMA/SD/MAD/Min/Max/BB computes the statistic of exactly the last min(t,n) inputs for every period, stream and prefix; f64 rounding within tau(t) is sampled against double-double references.")
 prop("C02", ["TaRs.Props.C02"],
      explanation="L0 whole-stream theorems (any Scalar, hence f64 incl. NaN): EMA seeding/recursion, TrueRange branches, ATR/MACD/KC/CE wiring are the documented formulas in the documented operation order; tau(t) agreement with from-scratch evaluation is sampled.")
-prop("C03", ["TaRs.Props.C03", "TaRs.Props.C03a", "TaRs.Lemmas.Exact.FastStochastic"],
+prop("C03", ["TaRs.Props.C03", "TaRs.Props.C03a", "TaRs.Lemmas.Exact.FastStochastic", "TaRs.Lemmas.Exact.RateOfChange", "TaRs.Lemmas.Exact.EfficiencyRatio", "TaRs.Lemmas.Exact.CommodityChannelIndex", "TaRs.Lemmas.Exact.MoneyFlowIndex"],
      explanation="L0 per-step and whole-stream formulas (RSI, PPO, OBV, SlowStochastic, CCI wiring, FastStochastic wiring) + L2 exact lookback/window theorems as they are completed (Lemmas/Exact); tau(t)·c agreement sampled with double-double references and condition-number gating.")
 prop("C04", ["TaRs.Props.C04"],
      explanation="L0 theorem per indicator: on every well-formed (hence every reachable) state reset yields exactly the state new builds; parameters unchanged; idempotent. State equality needs no arithmetic, so NaN/inf histories are covered.")
@@ -56,9 +56,9 @@ prop("C05", ["TaRs.Props.C05", "TaRs.Props.C19"],
      explanation="generic theorems about pure step functions: determinism, clone equivalence, independence under every interleaving of n instances (product of machines); their content for the code is the purity gate + plain-data table (C19 theorems, regenerated every run). Threads are exercised on the implementation only.")
 prop("C06", ["TaRs.Props.C06"],
      explanation="L0: dec (enc s ++ r) = (s, r) for the generated bincode codec of every indicator on every well-formed state; serde_derive/bincode are modelled and tied by byte comparison of every logged state.")
-prop("C07", ["TaRs.Props.C07", "TaRs.Lemmas.Exact.FastStochastic"],
+prop("C07", ["TaRs.Props.C07", "TaRs.Lemmas.Exact.FastStochastic", "TaRs.Lemmas.Exact.EfficiencyRatio", "TaRs.Lemmas.Exact.MoneyFlowIndex"],
      explanation="L2: ratio-of-non-negatives and convex-combination lemmas, RSI value range, alpha in (0,1]; exact range theorems of FastStochastic/ER/MFI in Lemmas/Exact as completed; 1e-9 slack sampled.")
-prop("C08", ["TaRs.Props.C08"],
+prop("C08", ["TaRs.Props.C08", "TaRs.Lemmas.Exact.FastStochastic", "TaRs.Lemmas.Exact.RateOfChange", "TaRs.Lemmas.Exact.EfficiencyRatio", "TaRs.Lemmas.Exact.CommodityChannelIndex", "TaRs.Lemmas.Exact.MoneyFlowIndex"],
      explanation="L1 guard theorems for any Scalar (output is the neutral literal or a quotient whose denominator tested non-zero on that path) for FastStochastic, CCI, ER, MFI, RSI; exact neutral values at X K from Lemmas/Exact; residue/underflow are float-only and searched on the implementation (two known findings).")
 prop("C09", ["TaRs.Props.C09"],
      explanation="L2 inequalities at X K (SD, MAD >= 0, bands ordered, hulls, Min <= Max), L1 clamp theorem (m2 never negative for any Scalar with not (0 < 0)), L0 histogram identity; tau slack sampled.")
@@ -76,7 +76,7 @@ prop("C15", ["TaRs.Props.C15"],
      explanation="L0 simulation identities: each composite run over a stream equals the documented combination of separately constructed public parts run over the same stream (Option-valued, panics compared too). BB.average vs SMA is the exact-arithmetic theorem pair of C01.")
 prop("C16", ["TaRs.Props.C16"],
      explanation="L0: verdict of build() for every setter sequence, getters return the last value, order irrelevance, NaN rejected under the IEEE hypothesis; all 10^5 lattice tuples enumerated on the implementation (exhaustive) and replayed on the model.")
-prop("C17", ["TaRs.Props.C17"],
+prop("C17", ["TaRs.Props.C17", "TaRs.Lemmas.Exact.RateOfChange", "TaRs.Lemmas.Exact.EfficiencyRatio"],
      explanation="L2 corollaries of C01: after any history the output equals that of a fresh indicator fed the last n inputs (SMA, WMA, SD, MAD, BB; Min/Max order-only); n+1-memory indicators and f64 slack are covered by the harness oracle.")
 prop("C18", ["TaRs.Props.C18"],
      explanation="L0: the model's bincode length is a closed form in the parameters, invariant under next/reset, bounded by 256+64·Σperiods; real bincode length compared at every logged state; live heap bytes measured with a counting allocator.")
